@@ -81,6 +81,8 @@ var variants = []variant{
 	{"abs-trailing-slash", "other", "{R}/src/", ""},
 	{"abs-dot-segments", "other", "{R}/./other/../src", ""},
 	{"abs-double-slash", "/", "{R}//src", ""},
+	{"below-symlinked-parent", "other", "{R}/parentlink/src", "parent-link"},
+	{"below-symlinked-parent-rel", ".", "parentlink/src", "parent-link"},
 	{"link-abs-target", "other", "{R}/lnabs", "link"},
 	{"link-abs-target-rel-spelling", ".", "lnabs", "link"},
 	{"link-rel-target-from-its-dir", "links", "lnrel", "link"},
@@ -112,6 +114,7 @@ func setupArena(c Case) (r, src string, vars map[string]string, cleanup func(), 
 		{Path: "links", Kind: "dir", Mode: 0755},
 		{Path: "links/lnrel", Kind: "symlink", Target: "../src"},
 		{Path: "lnabs", Kind: "symlink", Target: "{R}/src"},
+		{Path: "parentlink", Kind: "symlink", Target: "."},
 		{Path: "ln2", Kind: "symlink", Target: "lnabs"},
 	}
 	err = fsx.Materialise(r, extra, vars)
@@ -151,6 +154,15 @@ func namesOf(d []tarx.Decoded) []string {
 	return out
 }
 
+func hasAbsOrOutwardLink(t fsx.Tree) bool {
+	for _, n := range t {
+		if n.Kind == "symlink" && (strings.HasPrefix(n.Target, "/") || strings.HasPrefix(n.Target, "{") || strings.Contains(n.Target, "..")) {
+			return true
+		}
+	}
+	return false
+}
+
 func checkSpelling(c Case) error {
 	r, src, vars, cleanup, err := setupArena(c)
 	if err != nil {
@@ -173,6 +185,14 @@ func checkSpelling(c Case) error {
 		case "link-rel-cwd":
 			if ev.IsKnown("c16-root-link-relative-to-cwd") {
 				ev.Excluded("c16-root-link-relative-to-cwd")
+				continue
+			}
+		case "parent-link":
+			// known finding: link targets are compared with the source root and the
+			// allow list as text, so a source spelled through a symlinked parent
+			// disagrees with absolute or outward targets spelled the direct way
+			if hasAbsOrOutwardLink(c.Tree) && ev.IsKnown("c16-symlinked-parent-lexical-compare") {
+				ev.Excluded("c16-symlinked-parent-lexical-compare")
 				continue
 			}
 		case "link-chain", "link-slash":
